@@ -347,11 +347,15 @@ type closeStore struct {
 	closes   atomic.Int32
 	closedAt atomic.Int64
 	err      error
+	delay    time.Duration // (virtual) time Close takes
 }
 
 func (s *closeStore) Close() error {
 	s.closes.Add(1)
 	s.closedAt.Store(time.Now().UnixNano())
+	if s.delay > 0 {
+		time.Sleep(s.delay)
+	}
 	return s.err
 }
 
@@ -371,7 +375,7 @@ func TestC06Shutdown(t *testing.T) {
 	defer run.Finish()
 	durs := []time.Duration{0, 10 * time.Millisecond, 100 * time.Millisecond, time.Hour}                     // (virtual time: an hour-long handler costs nothing)
 	deadlines := []time.Duration{-1, 0, 5 * time.Millisecond, 50 * time.Millisecond, 500 * time.Millisecond} // -1: no deadline, 0: cancelled before the call
-	stores := []string{"none", "close-ok", "close-err", "no-closer"}
+	stores := []string{"none", "close-ok", "close-err", "no-closer", "close-slow"}
 	idx := 0
 	for _, d1 := range durs {
 		for _, d2 := range durs {
@@ -402,6 +406,7 @@ func scenario(t *testing.T, run *vk.Run, sig string, d1, d2 time.Duration, neste
 	synctest.Test(t, func(t *testing.T) {
 		var cs *closeStore
 		var opts []ebu.Option
+		var closeDelay time.Duration
 		switch st {
 		case "close-ok":
 			cs = &closeStore{MemoryStore: ebu.NewMemoryStore()}
@@ -411,6 +416,12 @@ func scenario(t *testing.T, run *vk.Run, sig string, d1, d2 time.Duration, neste
 			opts = append(opts, ebu.WithStore(cs))
 		case "no-closer":
 			opts = append(opts, ebu.WithStore(&noCloseStore{inner: ebu.NewMemoryStore()}))
+		case "close-slow":
+			// a store whose Close takes a while (it flushes): once Shutdown has begun closing it, the
+			// caller's context no longer matters
+			closeDelay = 100 * time.Millisecond
+			cs = &closeStore{MemoryStore: ebu.NewMemoryStore(), delay: closeDelay}
+			opts = append(opts, ebu.WithStore(cs))
 		}
 		bus := ebu.New(opts...)
 		t0 := time.Now()
@@ -493,8 +504,8 @@ func scenario(t *testing.T, run *vk.Run, sig string, d1, d2 time.Duration, neste
 			if running.Load() != 0 {
 				run.Violation("shutdown:returned-with-work-running", "Shutdown returned while an async handler was still running ("+sig+")", witness)
 			}
-			if elapsed != total {
-				run.Violation("shutdown:return-time", fmt.Sprintf("Shutdown returned at virtual t=%v, the asynchronous work ends at %v (%s)", elapsed, total, sig), witness)
+			if elapsed != total+closeDelay {
+				run.Violation("shutdown:return-time", fmt.Sprintf("Shutdown returned at virtual t=%v, the asynchronous work ends at %v and closing the store takes %v (%s)", elapsed, total, closeDelay, sig), witness)
 			}
 			if st == "close-err" {
 				if err == nil || !errors.Is(err, cs.err) {
@@ -530,7 +541,7 @@ func scenario(t *testing.T, run *vk.Run, sig string, d1, d2 time.Duration, neste
 		t1 := time.Now()
 		ebu.Publish(bus, sdEvent{2})
 		err3 := bus.Shutdown(context.Background())
-		if running.Load() != 0 || time.Since(t1) != total {
+		if running.Load() != 0 || time.Since(t1) != total+closeDelay {
 			run.Violation("shutdown:again-returned-with-work-running", fmt.Sprintf("a later Shutdown (after the bus had been idle) returned %v at virtual t=%v with %d handlers still running; the new asynchronous work ends at %v (%s)", err3, time.Since(t1), running.Load(), total, sig), witness)
 		}
 		if cs != nil && cs.closes.Load() != closesBefore+1 {
